@@ -943,5 +943,6 @@ package spdxexp
 //@     invariant[C03,C13] fresh(list) && allKeys != nil && fresh(allKeys)
 //@     invariant[C06] $i <= len(sliceList) && noDups(list)
 //@     invariant[C06] forall t string {has(allKeys, t)} :: has(allKeys, t) <==> occurs(list, t)
+//@     invariant[C06] forall t string {has(allKeys, t)} :: has(allKeys, t) ==> allKeys[t]
 //@     invariant[C06] occurs(list, s) <==> old(occursP(sliceList, $i, s))
 //@ end
